@@ -177,6 +177,12 @@ func (uv *UtxoVM) CheckInputEqualOutput(tx *pb.Transaction) error {
 		}
 		inputSum.Add(inputSum, amount)
 	}
+	if tx.Coinbase && len(tx.TxInputs) > 0 {
+		// a coinbase tx mints its outputs (all of them go into the total supply) and is not
+		// signature-checked: it must not consume any output
+		uv.log.Warn("coinbase tx must not have inputs", "txid", utils.F(tx.Txid), "inputs", len(tx.TxInputs))
+		return ErrInputOutputNotEqual
+	}
 	if inputSum.Cmp(outputSum) == 0 {
 		return nil
 	}
